@@ -1267,6 +1267,9 @@ int simw_close(int fd) { SHIM;
 static size_t cut(const Frag &fr, size_t n, unsigned *counter) {
   State &s = *S;
   size_t r = n;
+  // deterministic cost cap: after 20000 cut transfers on this side a run gets full transfers (a 45 MB output written one byte
+  // at a time took 143 million decision steps and 45 s without adding anything after the first few thousand calls)
+  if (counter && *counter >= 20000 && fr.mode != FR_RANDOM) return n;
   switch (fr.mode) {
   case FR_ONE: r = 1; break;
   case FR_SHORT1: r = n > 1 ? n - 1 : 1; break;
